@@ -29,7 +29,8 @@ type Obligation struct {
 	Result   smt.Result
 	Expected string // "unsat" for proof goals, "sat" for cover / must-fail probes
 	Note     string
-	Batched  int // >0: discharged as one of this many frame obligations of the same program point
+	PkgPath  string // for lemmas: the package whose spec functions are in scope
+	Batched  int    // >0: discharged as one of this many frame obligations of the same program point
 	fs       *fnState
 	ni       *niInfo
 }
@@ -78,6 +79,7 @@ type loopInfo struct {
 	blocks   map[*ssa.BasicBlock]bool
 	modified map[string]bool
 	backs    []*ssa.BasicBlock
+	entryEnv *env   // env in which the loop was entered (for atentry())
 	headEnv  *env   // env right after havoc (for decreases)
 	decrAt   string // value of the decreases measure at the head
 }
@@ -112,6 +114,7 @@ type fnState struct {
 	strLits   map[string]string
 	invLookup *loopInfo         // loop whose invariant is being translated (scopes local names)
 	sitePos   token.Pos         // source position of the site clause being translated
+	quantElts []string          // element-location terms met in the quantifier body being translated
 	quant     int               // >0 while translating the body of a quantifier
 	sentinels []string          // constants of leaf error sentinels seen so far
 	defs      map[string]string // terms behind the names introduced by define
@@ -918,6 +921,7 @@ func (f *fnState) loopHead(l *loopInfo) {
 	h := l.header
 	f.curPos = firstPos(h)
 	invs := f.invariantsFor(l)
+	l.entryEnv = f.cur.clone()
 	ctx := f.specCtx(nil)
 	ctx.locals = true
 	ctx.invLoop = l
